@@ -1094,6 +1094,54 @@ func checkFormatAliasAgreement(c *core.Ctx, prog *core.Prog) {
 	if n == 0 {
 		r.Undecided("format-alias:none", c.Pos(jsonFmt.Pos()), "JSON.Format has no two labels with the same codec: the alias groups the rule looks for are gone")
 	}
+	// the unix formats are declared on integer schemas as well as on string schemas (JSON.Format serves both through
+	// typePrefix): on the URI side their arms must not sit behind a test of the schema type
+	{
+		var stack []ast.Node
+		ast.Inspect(uriFmt.Body, func(n ast.Node) bool {
+			if n == nil {
+				stack = stack[:len(stack)-1]
+				return true
+			}
+			stack = append(stack, n)
+			cc, ok := n.(*ast.CaseClause)
+			if !ok {
+				return true
+			}
+			isUnix := false
+			for _, e := range cc.List {
+				if sv, ok := strLit(e); ok && strings.HasPrefix(sv, "unix") {
+					isUnix = true
+				}
+			}
+			if !isUnix {
+				return true
+			}
+			gate := ""
+			for _, anc := range stack[:len(stack)-1] {
+				if is, ok := anc.(*ast.IfStmt); ok {
+					if cs := types.ExprString(is.Cond); strings.Contains(cs, ".Type ") || strings.HasSuffix(cs, ".Type") {
+						gate = cs
+					}
+				}
+			}
+			ast.Inspect(cc, func(m ast.Node) bool {
+				if is, ok := m.(*ast.IfStmt); ok {
+					if cs := types.ExprString(is.Cond); strings.Contains(cs, ".Type ") {
+						gate = cs
+					}
+				}
+				return true
+			})
+			key := "format-unix-type-gated"
+			if gate == "" {
+				r.Pass("unix format arms of uriFormat do not depend on the schema type")
+			} else {
+				r.Fail(key, c.Pos(cc.Pos()), fmt.Sprintf("the unix format arm of ir.Type.uriFormat sits behind `%s`: an integer-typed parameter with format unix / unix-milli … falls through to the default text form of time.Time (\"15:04:05\") while its JSON sibling uses the declared unit", gate))
+			}
+			return true
+		})
+	}
 	// the formats carried by time.Time share one Go type and therefore one default URI codec: each of them
 	// needs its own case on the URI side, or it is sent in the default representation
 	var labels []string
